@@ -18,7 +18,7 @@ from elementpath.datatypes import builtin_atomic_types, builtin_list_types, QNam
 from elementpath.exceptions import ElementPathKeyError, xpath_error
 from elementpath.namespaces import XSD_NAMESPACE, XSD_ERROR, XSD_DATETIME_STAMP, \
     XSD_NUMERIC, XSD_UNTYPED, XSD_UNTYPED_ATOMIC, get_expanded_name
-from elementpath.helpers import collapse_white_spaces, Patterns
+from elementpath.helpers import collapse_white_spaces, split_function_test, Patterns
 from elementpath.xpath_nodes import XPathNode, DocumentNode, ElementNode, AttributeNode
 from elementpath.xpath_tokens import XPathToken
 
@@ -118,16 +118,18 @@ def is_sequence_type_restriction(st1: str, st2: str) -> bool:
     if st1 == 'function(*)':
         return st2.startswith('function(')
 
-    parts1 = st1[9:].partition(') as ')
-    parts2 = st2[9:].partition(') as ')
+    parts1 = split_function_test(st1.strip())
+    parts2 = split_function_test(st2.strip())
+    if not parts1 or not parts2:
+        return False
 
-    for st1, st2 in zip_longest(parts1[0].split(', '), parts2[0].split(', ')):
+    for st1, st2 in zip_longest(parts1[:-1], parts2[:-1]):
         if st1 is None or st2 is None:
             return False
         if not is_sequence_type_restriction(st2, st1):
             return False
     else:
-        if not is_sequence_type_restriction(parts1[2], parts2[2]):
+        if not is_sequence_type_restriction(parts1[-1], parts2[-1]):
             return False
         return True
 
